@@ -92,6 +92,19 @@ template <typename R> void int_ops(const WOpts &o) {
     }
     std::printf("{\"k\":\"wsum\",\"what\":\"int_ops\",\"R\":\"%s\",\"n\":%lld,\"mismatches\":%lld}\n", rep_name<R>(), t.n, t.mism);
 }
+// a random value of F: for float/double an arbitrary bit pattern; for x87 long double (whose 80-bit encodings include
+// non-canonical pseudo-denormals/unnormals that any arithmetic renormalises) a canonical value built from a random significand/exponent
+template <typename F, typename Bits> F random_pattern(Rng &rng) {
+    if (sizeof(F) == sizeof(Bits)) { Bits b = (Bits)rng.next(); F x; std::memcpy(&x, &b, sizeof(Bits)); return x; }
+    uint64_t m = rng.next() | (1ULL << 63);
+    int e = (int)(rng.next() % 32000) - 16000;
+    F x = (F)std::ldexp((long double)m, e - 63);
+    uint64_t sel = rng.next() % 64;
+    if (sel == 0) x = std::numeric_limits<F>::quiet_NaN();
+    if (sel == 1) x = std::numeric_limits<F>::infinity();
+    if (sel == 2) x = F(0);
+    return (rng.next() & 1) ? -x : x;
+}
 // floating reps: operators vs raw, bit for bit (NaN-aware), and the round trip unit(x).in(unit)
 template <typename F, typename Bits> void float_ops(const WOpts &o) {
     Tally t; Rng rng(o.seed ^ sizeof(F) * 131);
@@ -102,6 +115,11 @@ template <typename F, typename Bits> void float_ops(const WOpts &o) {
         F z = make_quantity<Seconds>(x).in(seconds);
         F w = meters(x).template in<F>(meters);
         if (!same_bits(x, y) || !same_bits(x, z) || !same_bits(x, w)) { ++t.mism; if (t.mism < 20) std::printf("{\"k\":\"fmis\",\"what\":\"roundtrip\",\"R\":\"%s\",\"x\":%s}\n", rep_name<F>(), fwire(x).c_str()); }
+        // the same round trip through a QuantityPoint maker
+        F py = meters_pt(x).in(meters_pt);
+        F pz = meters_pt(x).template in<F>(meters_pt);
+        F pw = meters_pt(x).coerce_in(meters_pt);
+        if (!same_bits(x, py) || !same_bits(x, pz) || !same_bits(x, pw)) { ++t.mism; if (t.mism < 20) std::printf("{\"k\":\"fmis\",\"what\":\"point roundtrip\",\"R\":\"%s\",\"x\":%s}\n", rep_name<F>(), fwire(x).c_str()); }
     };
     auto pairops = [&](F x, F y) {
         ++t.n;
@@ -120,9 +138,9 @@ template <typename F, typename Bits> void float_ops(const WOpts &o) {
                          std::numeric_limits<F>::max(), std::numeric_limits<F>::lowest(), std::numeric_limits<F>::epsilon(), F(0.1), F(3.5), F(1e10), F(-7.25e-5)};
     for (F x : sp) { roundtrip(x); for (F y : sp) pairops(x, y); }
     for (long long i = 0; i < o.nfloat; ++i) {
-        Bits b = (Bits)rng.next(); F x; std::memcpy(&x, &b, sizeof(Bits));      // arbitrary bit patterns incl. NaN payloads
+        F x = random_pattern<F, Bits>(rng);                                      // arbitrary bit patterns incl. NaN payloads
         roundtrip(x);
-        if ((i & 15) == 0) { Bits c = (Bits)rng.next(); F y; std::memcpy(&y, &c, sizeof(Bits)); pairops(x, y); }
+        if ((i & 15) == 0) { F y = random_pattern<F, Bits>(rng); pairops(x, y); }
     }
     std::printf("{\"k\":\"wsum\",\"what\":\"float_ops\",\"R\":\"%s\",\"n\":%lld,\"mismatches\":%lld}\n", rep_name<F>(), t.n, t.mism);
 }
